@@ -48,13 +48,18 @@ def run(ctx):
                "probe": s["probe"].locations.coords.tolist(), "scatterers": s["scat_pts"].tolist(), "H": s["H"],
                "couplant": [s["couplant"].longitudinal_vel, s["couplant"].density], "block": [block.longitudinal_vel, block.transverse_vel, block.density]}
         ctx.count(f"ingredients:dir={int(use_dir)},att={int(use_att)}")
-        for sname, sc in scatterers.items():
-            a = 0.0
-            for vname in pick:
+        # a rotated reciprocal scatterer S'(t1, t2) = S(t1 - a, t2 - a) is reciprocal: every scatterer is also run with a
+        # random rotation (functions and precomputed matrices take different code paths for the rotation)
+        rot = float(rng.uniform(-np.pi, np.pi))
+        pick_rot = [pick[i] for i in rng.permutation(len(pick))[:12]]
+        for sname, sc, a in [(n_, s_, 0.0) for n_, s_ in scatterers.items()] + [(n_, s_, rot) for n_, s_ in scatterers.items()]:
+            if a != 0.0:
+                ctx.count("rotated_scatterer")
+            for vname in (pick if a == 0.0 else pick_rot):
                 rname = ut.reciprocal_viewname(vname)
                 A = model.model_amplitudes_factory(tx, rx, views[vname], rw, sc, scat_angle=a)[...]
                 B = model.model_amplitudes_factory(tx, rx, views[rname], rw, sc, scat_angle=a)[...]
-                ctx.case(("rec", rep, sname, vname), vname not in ("L-L",), sample={"view": vname, "scatterer": sname, "reflections": nrefl} if len(ctx.samples) < 4 and len(vname) > 3 else None)
+                ctx.case(("rec", rep, sname, vname, a), vname not in ("L-L",), sample={"view": vname, "scatterer": sname, "reflections": nrefl} if len(ctx.samples) < 4 and len(vname) > 3 else None)
                 ctx.count("scat:" + sname)
                 ctx.count(f"refl={nrefl}")
                 worst = 0.0
@@ -63,8 +68,8 @@ def run(ctx):
                     for j in range(numel):
                         worst = max(worst, np.abs(A[:, i * numel + j] - B[:, j * numel + i]).max() / scale)
                 if worst > 1e-9:
-                    ctx.violate(f"view {vname} (i->j) and its reciprocal {rname} (j->i) differ by {worst:.3e} (relative) with scatterer '{sname}'",
-                                {**cjb, "view": vname, "scatterer": sname}, {"kind": "reciprocity", "scatterer": sname})
+                    ctx.violate(f"view {vname} (i->j) and its reciprocal {rname} (j->i) differ by {worst:.3e} (relative) with scatterer '{sname}' rotated by {a}",
+                                {**cjb, "view": vname, "scatterer": sname, "scat_angle": a}, {"kind": "reciprocity", "scatterer": sname})
         # ---- every other on/off combination of directivity and attenuation on the same set-up (side-drilled hole, views whose
         # two ends differ in mode first: the scattering normalisation sqrt(lambda_mode) only matters there)
         mixed = [n_ for n_ in names if n_.split("-")[0][-1] != n_.split("-")[1][0]]
